@@ -4,9 +4,10 @@
   /venv/bin/python selftest/c09_mutations.py [name ...]      (C09_PROGRAMS=30
   in the environment makes each run use the first 30 quick programs only)
 
-For every mutation: copy /repo to /tmp/c09_mut_<name>, patch one file, run
+For every mutation: `git -C /repo worktree add --detach /tmp/c09_mut_<name>`,
+patch one file, run (with its own VERIF_BUILD_DIR)
 `LOGICA_REPO=/tmp/c09_mut_<name> ./check C09 --tier quick`, expect exit 1 with
-VIOLATION lines, delete the copy.  Results: build/c09_mutations.json.  The
+VIOLATION lines, remove the worktree.  Results: build/c09_mutations.json.  The
 evidence file of the unchanged tree has to be rewritten afterwards by a normal
 `./check C09 --tier quick` (every run of the check rewrites it).
 """
@@ -56,14 +57,38 @@ MUTATIONS = {
                """      return '\\'%s\\'' % (literal['the_string'].replace("'", "''"))""",
                """      return '\\'%s' % (literal['the_string'].replace("'", "''"))""",
                'string literal loses its closing quote (5 dialects)'),
+    'shapeA_with_second_parent': (
+        'compiler/universe.py',
+        "        _ = self.program.PredicateSql(table, self.allocator)\n",
+        "        pass\n",
+        'second WITH parent of a shared table does not get the tables it reads'),
+    'shapeB_duckdb_quote': (
+        'compiler/expr_translate.py',
+        "          .replace('\\\\', '\\\\\\\\')\n          .replace(\"'\", \"''\")",
+        "          .replace(\"'\", \"\\\\'\")\n          .replace('\\\\', '\\\\\\\\')",
+        "DuckDB: apostrophe written as \\' and the backslash then doubled"),
+    'shapeB_clickhouse_quote': (
+        'compiler/expr_translate.py',
+        "literal['the_string'].replace('\\\\', '\\\\\\\\').replace(\"'\", \"''\"))",
+        "literal['the_string'].replace(\"'\", \"\\\\'\").replace('\\\\', '\\\\\\\\'))",
+        "ClickHouse: apostrophe written as \\' and the backslash then doubled"),
 }
+
+
+def Drop(scratch):
+  subprocess.run(['git', '-C', '/repo', 'worktree', 'remove', '--force',
+                  scratch], capture_output=True)
+  shutil.rmtree(scratch, ignore_errors=True)
+  subprocess.run(['git', '-C', '/repo', 'worktree', 'prune'],
+                 capture_output=True)
 
 
 def RunMutation(name):
   rel, old, new, what = MUTATIONS[name]
   scratch = '/tmp/c09_mut_' + name
-  shutil.rmtree(scratch, ignore_errors=True)
-  shutil.copytree('/repo', scratch, symlinks=True)
+  Drop(scratch)
+  subprocess.run(['git', '-C', '/repo', 'worktree', 'add', '--detach', scratch],
+                 check=True, capture_output=True)
   path = os.path.join(scratch, rel)
   with open(path) as f:
     text = f.read()
@@ -72,9 +97,13 @@ def RunMutation(name):
     f.write(text.replace(old, new))
   t0 = time.time()
   p = subprocess.run([os.path.join(HERE, 'check'), 'C09', '--tier', 'quick'],
-                     cwd=HERE, env=dict(os.environ, LOGICA_REPO=scratch),
-                     capture_output=True, text=True)
-  shutil.rmtree(scratch, ignore_errors=True)
+                     cwd=HERE, capture_output=True, text=True,
+                     env=dict(os.environ, LOGICA_REPO=scratch,
+                              VERIF_BUILD_DIR=os.path.join(
+                                  HERE, 'build', 'alt_c09mut_' + name)))
+  Drop(scratch)
+  shutil.rmtree(os.path.join(HERE, 'build', 'alt_c09mut_' + name, 'tlc'),
+                ignore_errors=True)
   clauses = {}
   for rp in re.findall(r'VIOLATION property=C09 replay=(\S+)', p.stdout):
     try:
